@@ -19,13 +19,16 @@ def ct_setup(ctx):
     second = ["accepts", "ValueError"][ctx.choose(2, "second-attempt")]
     enable_path = ctx.choose(2, "enable_path") == 1
     valid_string = ctx.choose(2, "typehint-admits-str") == 1
-    default_is_spec = ctx.choose(2, "default-is-a-class-spec") == 1
+    default_kind = ctx.choose(3, "default:none/class-spec/a-number")
+    default_is_spec = default_kind == 1
     cfg_prev = ["no-cfg", "cfg-with-previous-value", "cfg-without"][ctx.choose(3, "cfg")]
     text = "-" if orig_kind == "dash" else z3.String("value")
     orig = {"text": text, "dash": text, "dict-object": {"a": 1}, "int-object": z3.Int("value")}[orig_kind]
     config_path = Rec("Path", attrs={"tag": "config file"}) if loaded_kind in ("dict-from-config-file", "list-from-config-file") else None
     loaded = {"a": 1, "__path__": config_path} if loaded_kind == "dict-from-config-file" else ["item.txt"] if loaded_kind == "list-from-config-file" else orig
     default_obj = Rec("Namespace", attrs={"tag": "THE-ACTION-DEFAULT"}, methods={"__getitem__": lambda c, s_, a, k: "pkg.DefaultClass"}) if default_is_spec else None
+    if default_kind == 2:
+        default_obj = z3.Int("declared-default")  # a value equal to the declared default is adapted like any other (True == 1 == 1.0: equal is not conforming)
     prev_in_cfg = Rec("Namespace", attrs={"tag": "previous value from cfg"})
     adapted1, adapted2 = (Rec(n, methods={"__setitem__": lambda c, s_, a, k: s_.attrs.__setitem__(a[0], a[1])}) for n in ("adapted-1", "adapted-2"))
     ctx.classes.add("YAMLError", ["Exception"])
@@ -66,7 +69,7 @@ def ct_setup(ctx):
                methods={"_is_valid_string": lambda c, s_, a, k: valid_string and (isinstance(a[0], str) or (is_z3(a[0]) and a[0].sort() == z3.StringSort()))})
     calls = {
         "_is_action_value_list": lambda c, a, k: False, "parse_value_or_config": parse_value_or_config, "get_loader_exceptions": lambda c, a, k: (ClassRef("YAMLError"),),
-        "sub_defaults.get": lambda c, a, k: False, "is_subclass_spec": lambda c, a, k: a[0] is not None,
+        "sub_defaults.get": lambda c, a, k: False, "is_subclass_spec": lambda c, a, k: isinstance(a[0], Rec),
         "Namespace": lambda c, a, k: Rec("Namespace", attrs={"tag": "fresh namespace", "kw": dict(k)}),
         "adapt_typehints": adapt, "indent_text": lambda c, a, k: a[0],
         # contract of subclass_spec_as_namespace (C14 unit): a spec that already is a Namespace is returned itself (no copy)
@@ -86,10 +89,11 @@ def common_obligations(ctx, d):
     ctx.oblige("proto", "every-adaptation-runs-inside-change_to_path_dir(the config file the value was loaded from)" + tag, all(len(e[3]) == 1 and e[3][0] is d["config_path"] for e in adapts) and len(adapts) >= 1)
     ctx.oblige("frame", "the-previous-value-handed-to-the-adaptation-is-never-the-action's-own-default-object" + tag,
                all(e[2].get("prev_val") is not d["default_obj"] or d["default_obj"] is None for e in adapts))
+    ctx.oblige("post", "every-value-given-is-adapted(also one that equals the declared default)" + tag, len(adapts) >= 1)
     want_prev = d["prev_in_cfg"] if d["cfg_prev"] == "cfg-with-previous-value" else None
     if want_prev is not None:
         ctx.oblige("post", "the-value-already-in-the-configuration-is-the-previous-value" + tag, all(e[2].get("prev_val") is want_prev for e in adapts))
-    elif d["default_obj"] is not None:
+    elif isinstance(d["default_obj"], Rec):
         ctx.oblige("post", "without-one,the-previous-value-is-a-fresh-namespace-holding-only-the-default's-class_path" + tag,
                    all(isinstance(e[2].get("prev_val"), Rec) and e[2]["prev_val"].attrs.get("kw") == {"class_path": "pkg.DefaultClass"} for e in adapts))
     ctx.oblige("post", "the-first-attempt-adapts-the-loaded-value-and-never-gets-default=" + tag, adapts and "default" not in adapts[0][2] and (adapts[0][1] is d["loaded"] or adapts[0][1] is d["orig"]))
